@@ -47,17 +47,17 @@ type vSess struct {
 const vItems = 4 // items 0..3; every session asks for [0, 4)
 
 var (
-	vnSid   = [...]string{"sid0", "sid1", "sid2", "sid3", "sid4"}
-	vnChunk = [...]string{"chunks0", "chunks1", "chunks2", "chunks3", "chunks4"}
-	vnNum   = [...]string{"num0", "num1", "num2", "num3", "num4"}
-	vnSize  = [...]string{"size0", "size1", "size2", "size3", "size4"}
+	vnSid   = [...]string{"sid0", "sid1", "sid2", "sid3", "sid4", "sid5"}
+	vnChunk = [...]string{"chunks0", "chunks1", "chunks2", "chunks3", "chunks4", "chunks5"}
+	vnNum   = [...]string{"num0", "num1", "num2", "num3", "num4", "num5"}
+	vnSize  = [...]string{"size0", "size1", "size2", "size3", "size4", "size5"}
 	vnItem  = [...]string{"item0", "item1", "item2", "item3"}
 )
 
 // verifC17: nReq requests of one peer with symbolic session IDs (1..4), chunk counts, item-count and
-// size limits and symbolic item sizes; then an unregistration and one more request.  The responses
+// size limits and symbolic item sizes; an unregistration after request number unregAfter.  The responses
 // must equal those of a reference seeder written from the statement.
-func verifC17(nReq int, withUnregister bool) {
+func verifC17(nReq int, unregAfter int, fixed int, symLimits int) {
 	sizes := make([]uint64, vItems)
 	for i := range sizes {
 		sizes[i] = uint64(sym.U8(vnItem[i]))
@@ -141,10 +141,13 @@ func verifC17(nReq int, withUnregister bool) {
 	}
 
 	for i := 0; i < nReq; i++ {
-		sid := uint32(1 + sym.Choice(vnSid[i], 4))
-		// the limits of the last two requests are symbolic, the earlier ones ask for one item per chunk
+		sid := uint32(i + 1) // the first `fixed` requests open the sessions 1, 2, ...
+		if i >= fixed {
+			sid = uint32(1 + sym.Choice(vnSid[i], 4))
+		}
+		// the limits of the last symLimits requests are symbolic, the earlier ones ask for one item per chunk
 		chunks, maxNum, maxSize := uint32(1), uint32(1), uint64(1<<20)
-		if i >= nReq-2 {
+		if i >= nReq-symLimits {
 			chunks = uint32(1 + sym.Choice(vnChunk[i], 2))
 			maxNum = uint32(1 + sym.Choice(vnNum[i], 3))
 			maxSize = uint64(sym.U16(vnSize[i]))
@@ -155,7 +158,7 @@ func verifC17(nReq int, withUnregister bool) {
 		sym.Assert(err == nil && perr == nil, "request accepted")
 		pump()
 		serve(sid, chunks, maxNum, maxSize)
-		if withUnregister && i == nReq-2 {
+		if i == unregAfter {
 			sym.Assert(s.UnregisterPeer("p") == nil, "UnregisterPeer")
 			pump()
 			held = nil // every session of the peer is forgotten
@@ -185,6 +188,11 @@ func verifC17(nReq int, withUnregister bool) {
 	sym.Reach("c17")
 }
 
-func VerifH_C17_req3()   { verifC17(3, false) }
-func VerifH_C17_req4()   { verifC17(4, false) }
-func VerifH_C17_unreg4() { verifC17(4, true) }
+func VerifH_C17_req3()   { verifC17(3, -1, 0, 2) }
+func VerifH_C17_req4()   { verifC17(4, -1, 0, 2) }
+func VerifH_C17_unreg4() { verifC17(4, 2, 0, 2) }
+
+// three held sessions 1, 2, 3, then the peer is unregistered, then three more requests with symbolic session IDs:
+// nothing of the forgotten sessions (neither their progress nor their slots in the peer's quota) may survive
+func VerifH_C17_unreg6()     { verifC17(6, 2, 3, 1) }
+func VerifH_C17_unreg6full() { verifC17(6, 2, 3, 2) }
